@@ -146,6 +146,17 @@ let run (f : string array) : string option =
      | Some (Some s) -> Some (tab [hex s; "-"]))
   | "base" ->
     let b = ref_base (unhex f.(2)) in Some (Printf.sprintf "0:%d" (List.length b))
+  | "dataurl" ->
+    let u = unhex f.(1) in
+    (match dparse u with
+     | None -> Some "REJ"
+     | Some d ->
+       let sm x = (match x with None -> "LOOP" | Some v -> if v = [] then "~" else hex v) in
+       let om = o_media_type u d in
+       Some (String.concat "," ["ACC"; (if om = [] then "~" else hex om); (if o_base64 d then "1" else "0"); hex (o_data u d);
+                                sm (b_media_type u); (match b_base64 u with None -> "LOOP" | Some true -> "1" | Some false -> "0");
+                                (match b_data u with None -> "LOOP" | Some v -> hex v)]))
+  | "pct" -> Some (match dec (unhex f.(3)) with Some d -> hex d | None -> "PANIC")
   | "eq" ->
     let a = unhex f.(2) and b = unhex f.(3) in
     let k = f.(1) in
